@@ -39,7 +39,7 @@ func zzListResult(objs []parser.K8sObject) error {
 func ZZ_C19_Priorities() {
 	maxN := 5
 	if vf_Tier() > 0 {
-		maxN = 7
+		maxN = 6
 	}
 	n := 1 + vf_Choose("n", maxN)
 	objs := []parser.K8sObject{zzDeployObj("ns1", "a", map[string]string{"app": "a"}, nil)}
